@@ -75,7 +75,7 @@ def main():
         ],
         "checks": checks,
         "not_applicable": na,
-        "notes": "fix: commits in /repo: 83305e8, ac05f01, 7da668d, 7080e9e, 2dfa36f, 0d74ce8, f4bf81a, 85fb258 (rounds 1-2: bitvector / interval / memory image), b82ac12 (CWE-243 panic), 8a58ccd (brick normalization: non-termination and u32 overflow), 85876a6 (format strings: escaped percent sign), e127fe6 (`1 == x - y` rewrite), 19618dc (sub-register substitution: cast to a same-name smaller register); open findings: C18/K1, C16/F1, C09/F1; see known_findings.txt and DESIGN.md sections 11-13.",
+        "notes": "fix: commits in /repo: 83305e8, ac05f01, 7da668d, 7080e9e, 2dfa36f, 0d74ce8, f4bf81a, 85fb258 (rounds 1-2: bitvector / interval / memory image), b82ac12 (CWE-243 panic), 8a58ccd (brick normalization: non-termination and u32 overflow), 85876a6 (format strings: escaped percent sign), e127fe6 (`1 == x - y` rewrite), 19618dc (sub-register substitution: cast to a same-name smaller register), 1a158f4 (interval arithmetic of two constants wrapping around); open findings: C16/F1, C09/F1; see known_findings.txt and DESIGN.md sections 11-13.",
     }
     json.dump(m, open(os.path.join(VERIF, "MANIFEST.json"), "w"), indent=1)
     print("MANIFEST.json: %d checks, %d not applicable" % (len(checks), len(na)))
